@@ -120,7 +120,7 @@ func (h *HTTP) request(ctx *gin.Context) {
 	valid := true
 	IgnoreHeaders := [2]string{"Connection", "Accept-Encoding"}
 	for _, Header := range h.Config.Headers {
-		NameValue := strings.Split(Header, ": ")
+		NameValue := strings.SplitN(Header, ": ", 2)
 		if len(NameValue) > 1 {
 			ignore := false
 			for _, IgnoreHeader := range IgnoreHeaders {
